@@ -51,7 +51,7 @@ def verify(d):
                 shutil.copy(t, pd)
                 placed.append((os.path.join(pd, os.path.basename(t)), pd))
         res['demo_files'] = [os.path.basename(t) for t in demos]
-        scripts = glob.glob(os.path.join(d, '*.sh'))
+        scripts = glob.glob(os.path.join(d, '*.sh')) if not demos else []   # a Go test demo is preferred over scripts
         if not placed and not scripts:
             res['error'] = 'no demonstration found'
             return res
